@@ -6,6 +6,7 @@ REFRESH = [k for k in gen.FORMATS if k not in ("df19", "df24")]
 
 class C12(PropBase):
     id = "C12"
+    corr_fields = ['age']
     lean_modules = ["SqModel.Props.C12", "SqModel.Proofs.BridgePlane"]
     extractors = ["trans"]
     rule = ("schedules of reader runs (segments of 1..40 lines) and silences for 2-5 aircraft; silence lengths delete_after-0.5, "
